@@ -3,9 +3,25 @@
 import json, subprocess, sys
 
 HOOK_COMMITS = ["81aaa17"]
+TRUST = "Trusts rustc/std, the harness's own oracles (self-checked against published constants before each run) and the translation of cards through the public Rank/Suit enum variants."
 
 # id -> (technique, level text, level note, design ref)
 CHECKS = {
+ "C01": ("online reference-model monitor (best-of-21 five-card ranker) over exhaustive/seeded executions of MadeHand::from, table-slot hook for coverage",
+         "Every observed execution of the real evaluator is compared with an independent naive ranker: quick covers every flush-table execution (all 4,089,228 sets with >=5 cards of a suit), every one of the 49,205 no-flush slots, 8M random sets and 10,000 sets in all 5040 orders; thorough covers all 133,784,560 sets (exhaustive over sets) plus 400,000 sets in all orders, and checks Ord/PartialOrd/Eq of consecutive hands against poker order. Held means: no disagreement on any observed execution.",
+         TRUST + " The 7! presentation orders per set are sampled (seed-hashed order per set), exhausted only for the listed sets.", "DESIGN.md §4 C01"),
+ "C02": ("online boundary monitor + naive-enumerator oracle (multiset fingerprints per board position) over complete drains of the real evaluator; deal hook for coverage and a logical non-termination bound",
+         "Each case drains the real FlopExhaustiveEvaluator completely; every showdown is checked locally (flop order, unseen turn/river, combo from the player's own range, 5+2n distinct cards, probability = weight product) and the multiset of yielded deals must equal the naive enumeration position by position. Cases: 1-8 players, range sizes 1..1326 (255/256/257 boundaries), identical/overlapping/flop-blocked ranges, parsed and collected ranges, seeded random configurations.",
+         TRUST + " Range lists are sampled, not enumerated; f32 probability compared with relative tolerance 1e-5.", "DESIGN.md §4 C02"),
+ "C04": ("online comparison of scoped runs with the unscoped run (position order, per-position multiset fingerprints, exhaustion) over seeded/exhaustive scope pairs and chains; dev-profile child pass",
+         "Every scoped run of the real evaluator is compared online with the unscoped run of the same configuration. Quick: all 1177 starts x 8 characteristic ends per configuration, 2,380 random chains, repeated scope() calls, and a dev-profile pass (debug assertions). Thorough: all 693,253 (from<=to) pairs for three configurations.",
+         TRUST + " Configurations (flop, ranges) are sampled; the unscoped run is the reference and is itself checked against R3 under C02.", "DESIGN.md §4 C04"),
+ "C07": ("online reference-model monitor (category of the best five cards) over the C01 sweep",
+         "The Debug name of hand_type() is compared with the oracle's category on every observed evaluation: quick reaches every one of the 4,824 reachable power indexes (all flush-table executions, all rank multisets), thorough all 133,784,560 sets; the strongest and weakest class seen per category are reported.",
+         TRUST, "DESIGN.md §4 C07"),
+ "C08": ("crash-isolated child processes on 2 MiB threads in dev and release profiles, wait-status classifier + hook-based deal bound, blocked-run, depth and stack probes",
+         "Each (case, profile) drains the real evaluator in its own process on a 2 MiB thread; panic, integer overflow (dev profile), out-of-bounds, stack overflow/abort and logical non-termination (more than 1176*prod(len)+16 considered deals) are violations, a watchdog firing is inconclusive. Cases: combos on the flop beside 1..1326 combos (longest blocked runs), AsKs vs all combos, sizes 0/1/255/256/257/300/1326 in every player position, empty ranges, 6-10 players, random lists.",
+         TRUST + " OS/default-stack semantics of std::thread; range lists sampled.", "DESIGN.md §4 C08"),
  "C13": ("exhaustive runtime oracle over the finite conversion/order/range relations",
          "Every relation the property names is executed on the real code for its whole finite domain (52 cards, 52 low bit words, 128+16384 ASCII strings, 13 ranks, 4 suits, all start<=end endpoint pairs) and compared with an independent table; exhaustive, so 'held' means held for every input of the stated spaces.",
          "Trusts rustc/std and the harness's 13+4 element constant tables; reversed range endpoints are outside the statement and exercised under C09 only.", "DESIGN.md §4 C13"),
